@@ -294,7 +294,7 @@ func (c *checker) run(id string) int {
 				fmt.Fprintf(os.Stderr, "violation (schedule-dependent, engine-confirmed): harness=%s label=%s %s inputs=%v sched=%v\n", rc.Harness, rc.Label, rc.Detail, rc.Inputs, rc.Sched)
 				totalViol++
 			} else {
-				inconcl = append(inconcl, fmt.Sprintf("%s: counterexample for %q does not replay natively (native outcome %s %s %s): encoding or stub is wrong", rc.Harness, rc.Label, o.Outcome, o.Label, o.PanicMsg))
+				inconcl = append(inconcl, fmt.Sprintf("%s: counterexample for %q (%s, inputs %v) does not replay natively (native outcome %s %s %s): encoding or stub is wrong", rc.Harness, rc.Label, rc.Detail, rc.Inputs, o.Outcome, o.Label, o.PanicMsg))
 			}
 		case "witness":
 			found := false
@@ -315,7 +315,9 @@ func (c *checker) run(id string) int {
 				hs.Validated++
 			} else if diff != "" {
 				hs.ValidationDiffs = append(hs.ValidationDiffs, diff)
-				inconcl = append(inconcl, fmt.Sprintf("%s: encoder disagrees with compiler: %s", rc.Harness, diff))
+				if len(hs.ValidationDiffs) == 1 {
+					inconcl = append(inconcl, fmt.Sprintf("%s: encoder disagrees with compiler: %s", rc.Harness, diff))
+				}
 			}
 		}
 	}
